@@ -16,6 +16,9 @@ extern int64_t verif_clock_ns;
 
 static std::string clean(std::string w){ for (char& ch : w) if (ch==' '||ch=='|'||ch=='\n') ch='_'; return w.substr(0, 160); }
 static void on_alarm(int){ const char m[] = " TIMEOUT\n"; ssize_t r = write(1, m, sizeof m - 1); (void)r; _exit(3); }
+// budget in seconds of CPU time of this process (robust against a loaded machine), with a wall-clock fallback of ten times that
+#include <sys/time.h>
+static void verif_budget(unsigned s){ struct itimerval it; it.it_interval.tv_sec = 0; it.it_interval.tv_usec = 0; it.it_value.tv_sec = s; it.it_value.tv_usec = 0; setitimer(ITIMER_PROF, &it, nullptr); alarm(10 * s); }
 
 static mesh read_mesh(std::istream& in){
     mesh m; int nn; in >> nn; m.node_pos_lst.resize(3*nn); for (auto& x : m.node_pos_lst) x = rd(in);
@@ -49,11 +52,11 @@ static double signed_volume(const cell_ptr& c){
 
 int main(){
     std::string line;
-    std::signal(SIGALRM, on_alarm);
+    std::signal(SIGALRM, on_alarm); std::signal(SIGPROF, on_alarm);
     while (std::getline(std::cin, line)){
         if (line.empty()) continue;
         std::istringstream in(line); std::string mode; in >> mode;
-        std::cout.flush(); alarm(300);
+        std::cout.flush(); verif_budget(300);
         try {
             if (mode == "GATE"){
                 mesh m = read_mesh(in);
@@ -117,7 +120,7 @@ int main(){
                 std::filesystem::remove_all(dir);
             } else std::cout << "FATAL unknown mode\n";
         } catch (const std::exception& e){ std::cout << "FATAL " << clean(e.what()) << "\n"; }
-        alarm(0);
+        verif_budget(0);
     }
     return 0;
 }
